@@ -1,15 +1,19 @@
 #!/bin/bash
-# seed_matrix.sh [seed ...] : for each /verif/seeded/<seed>/patch.diff apply it to /repo, run the checks listed for it
-# (default: the check of the property it was written for; extra checks in seeded/<seed>/also.txt), undo it, and record
-# which obligations fired in /verif/seeded/RESULTS.json.  /repo is restored after every seed.
+# seed_matrix.sh [seed ...] : for each /verif/seeded/<seed>/patch.diff apply it to a scratch worktree of /repo's HEAD
+# (under /tmp, removed at the end; /repo itself is not touched), run the checks listed for it against that tree
+# (VERIF_REPO / VERIF_BUILD: default the check of the property it was written for; extra checks in seeded/<seed>/also.txt),
+# undo it, and record which obligations fired in /verif/seeded/RESULTS.json.
+# The same can be done on /repo itself: git -C /repo apply <patch>; ./check <id>; git -C /repo checkout -- .
 cd /verif
 SEEDS=${@:-$(ls seeded | grep -v RESULTS)}
-git -C /repo status --short | grep -v '^??' && { echo "REPO HAS UNCOMMITTED CHANGES - refusing"; exit 2; }
+W=/tmp/seedmx_$$; git -C /repo worktree add -q --detach $W HEAD || exit 2
+trap 'git -C /repo worktree remove --force $W >/dev/null 2>&1; rm -rf ${W}_build' EXIT
+export VERIF_REPO=$W VERIF_BUILD=${W}_build
 for s in $SEEDS; do
   [ -f seeded/$s/patch.diff ] || continue
   prop=$(python3 -c "import json;print(json.load(open('seeded/$s/meta.json'))['property'])")
   checks="$prop $(cat seeded/$s/also.txt 2>/dev/null)"
-  git -C /repo apply /verif/seeded/$s/patch.diff || { echo "$s: patch does not apply"; continue; }
+  git -C $W apply /verif/seeded/$s/patch.diff || { echo "$s: patch does not apply"; continue; }
   for c in $checks; do
     ./check $c --tier quick > /tmp/seedrun_${s}_$c.log 2>&1; e=$?
     python3 - "$s" "$c" "$e" /tmp/seedrun_${s}_$c.log <<'EOF'
@@ -34,7 +38,6 @@ json.dump(d, open(p, 'w'), indent=1, sort_keys=True)
 print(s, c, d[s][c]['verdict'], len(viol), 'violations', d[s][c]['failed_clauses'][:4])
 EOF
   done
-  git -C /repo checkout -- .
+  git -C $W checkout -- .
 done
-git -C /repo status --short | grep -v '^??'
 exit 0
